@@ -17,9 +17,9 @@ CHECKS['C16'] = dict(
 
 COMMON_NOTE = 'Coq 8.16.1 kernel (coqchk in the thorough tier); axioms as printed by Print Assumptions and allow-listed in tools/axioms_allow.txt (Reals: sig_forall_dec, sig_not_dec, functional_extensionality_dep, classic); extraction (ExtrOcamlBasic, ExtrOCamlFloats, ExtrOCamlInt63) + ocaml driver; Rust harness; exact-rational Python oracle; theorems are about the Gallina transcription in exact arithmetic, rounding is measured not proved'
 CHECKS['C01'] = dict(
-   technique='Coq proof (every rendering of the documented grammar is accepted with the stated coefficient vector; converse; evaluation = sum c_k x^k) + bit-for-bit differential correspondence of the extracted parser/evaluator against the Rust code + exact-rational oracle',
-   text='theorems for all strings: c01_accept (every string whose whitespace-stripped form is a rendering of the documented univariate grammar parses to dense_coeffs of its terms, for every arithmetic instance and Unicode classification), c01_dense_nth/length (like powers summed in source order, missing powers zero, coefficient k at position k), c01_eval_sum, c01_meaning (R: value of the string at every point), c01_spacing; model tied to the code by grammar-directed strings (all spellings, Unicode letters and whitespace) compared bit for bit',
-   note=COMMON_NOTE, ref='DESIGN.md §5 C01')
+   technique='Coq proof (every rendering of the documented grammar is accepted with the stated coefficient vector; converse; evaluation = sum c_k x^k in exact arithmetic AND, for the binary64 instance, within ((1+eps)^(2n) - 1) * sum |c_k||x|^k (Flocq)) + bit-for-bit differential correspondence of the extracted parser/evaluator against the Rust code + exact-rational oracle',
+   text='10 theorems: c01_eval_simple_float_error and c01_powi_float_error (binary64 instance, products in the normal range, no overflow: the forward rounding bound of evaluation and of the square-and-multiply power), c01_okmul_by_leb; for all strings: c01_accept (every string whose whitespace-stripped form is a rendering of the documented univariate grammar parses to dense_coeffs of its terms, for every arithmetic instance and Unicode classification), c01_dense_nth/length (like powers summed in source order, missing powers zero, coefficient k at position k), c01_eval_sum, c01_meaning (R: value of the string at every point), c01_spacing; model tied to the code by grammar-directed strings (all spellings, Unicode letters and whitespace) compared bit for bit',
+   note=COMMON_NOTE + '; the float-level theorems use FloatAxioms (add_spec, mul_spec, leb_spec, abs_spec, eqb_spec, Prim2SF_valid, SF2Prim_Prim2SF, Prim2SF_SF2Prim) and list the PrimFloat/PrimInt63 kernel primitives; Flocq', ref='DESIGN.md §5 C01')
 CHECKS['C05'] = dict(
    technique='Coq proof with Coquelicot (composite Simpson 1/3+3/8 error bound |b-a| h^4 max|f\'\'\'\'|/80 for every C4 integrand and every n>=2; exact for cubics; trapezoid exact for linear; Romberg exact-if-Ok and never panics for every cap/tolerance on a panic-aware model) + bit-for-bit correspondence + exact oracle',
    text='16 theorems, none partial: c05_simpson_error (for every integrand with four derivatives, every interval and every n >= 2 incl. odd n with the spliced 3/8 panel: |result - integral| <= |b-a| h^4 max|f\'\'\'\'| / 80) and its polynomial corollary for every degree; exactness of definite_integral for every cubic, interval and n>=2 (even/odd/3) and of the one-segment trapezoid for linear integrands; Romberg returns the exact integral whenever it returns for degree<=3, converges for cap>=3, and never panics for ANY cap and tolerance and any arithmetic instance (checked table indices, checked power); the bound is tight at n=3',
